@@ -228,3 +228,77 @@ VP_HARNESS(h_siblings)
   VP_CHECK(k == ne, "siblings: no element lost");
   VP_WITNESS("lists merged");
 }
+
+/* ---- successful (and conflicting) Group insertion on whole trees: enumerated cpusets as concrete runs selected by symbolic inputs ------------- */
+#include "vp_wf.h"
+#ifndef NSLICE
+#define NSLICE 1
+#endif
+#ifndef SLICE
+#define SLICE 0
+#endif
+#ifndef NG1
+#define NG1 4       /* first Group among the first NG1 sets, second among the first NG2 (or none) */
+#endif
+#ifndef NG2
+#define NG2 8
+#endif
+#define GMAXO 12
+struct gsnap { unsigned n; uint64_t gp[GMAXO]; int type[GMAXO]; unsigned long c[GMAXO], nd[GMAXO]; uint64_t pgp[GMAXO]; unsigned rank[GMAXO]; void *ud[GMAXO]; };
+static void gsnap_walk(hwloc_obj_t o, struct gsnap *s, int tag)
+{
+  if (s->n >= GMAXO) return;
+  if (tag) o->userdata = (void *) (0x2000 + o->gp_index);
+  unsigned k = s->n++; s->gp[k] = o->gp_index; s->type[k] = (int) o->type; s->c[k] = vp_w(o->cpuset); s->nd[k] = vp_w(o->nodeset); s->pgp[k] = o->parent ? o->parent->gp_index : 0; s->rank[k] = o->sibling_rank; s->ud[k] = o->userdata;
+  for (hwloc_obj_t c = o->memory_first_child; c; c = c->next_sibling) gsnap_walk(c, s, tag);
+  for (hwloc_obj_t c = o->first_child; c; c = c->next_sibling) gsnap_walk(c, s, tag);
+}
+static int gsnap_same(const struct gsnap *a, const struct gsnap *b)
+{ if (a->n != b->n) return 0; for (unsigned i = 0; i < a->n && i < GMAXO; i++) if (a->gp[i] != b->gp[i] || a->type[i] != b->type[i] || a->c[i] != b->c[i] || a->nd[i] != b->nd[i] || a->pgp[i] != b->pgp[i] || a->rank[i] != b->rank[i] || a->ud[i] != b->ud[i]) return 0; return 1; }
+static int gpop(unsigned long x) { int n = 0; for (unsigned i = 0; i < 8; i++) if (x & (1UL << i)) n++; return n; }
+static unsigned ge_runs, ge_new, ge_conflict;
+static hwloc_obj_t insert_group(struct hwloc_topology *t, unsigned long set, int dont_merge)
+{ hwloc_obj_t g = hwloc_topology_alloc_group_object(t); VP_NONNULL(g); g->cpuset = vp_bm(set); g->attr->group.dont_merge = (unsigned char) dont_merge; errno = 0; return hwloc_topology_insert_group_object(t, g); }
+static void group_case(unsigned long g1, unsigned long g2)
+{
+  struct hwloc_topology *t = vp_seed_build(9, 0);
+  static struct gsnap A, B, C; A.n = B.n = C.n = 0;
+  gsnap_walk(t->levels[0][0], &A, 1);
+  hwloc_obj_t r1 = insert_group(t, g1, 0);
+  ge_runs++;
+  /* on the flat seed every subset is consistent with the hierarchy: a singleton is a PU, the full set is the machine, anything else a new Group */
+  VP_CHECK(r1 != NULL && vp_w(r1->cpuset) == g1, "insert_group: the result is an object whose cpuset is the requested one");
+  if (!r1) return;
+  if (gpop(g1) == 1) VP_CHECK(r1->type == HWLOC_OBJ_PU, "insert_group: a Group equal to an existing object is merged into it");
+  else if (g1 == 0x27) VP_CHECK(r1 == t->levels[0][0], "insert_group: a Group covering the machine is the root");
+  else { VP_CHECK(r1->type == HWLOC_OBJ_GROUP && r1->parent == t->levels[0][0] && (int) r1->arity == gpop(g1) && r1->depth == 1 && t->nb_levels == 3, "insert_group: a new Group between the machine and exactly the PUs of its cpuset"); ge_new++; }
+  vp_wf_check(t, 0);
+  gsnap_walk(t->levels[0][0], &B, 0);
+  for (unsigned i = 0; i < A.n && i < GMAXO; i++) { int found = 0; for (unsigned j = 0; j < B.n && j < GMAXO; j++) if (B.gp[j] == A.gp[i]) { found = 1; VP_CHECK(B.type[j] == A.type[i] && B.c[j] == A.c[i] && B.ud[j] == A.ud[i], "insert_group: existing objects keep their gp_index, sets and userdata"); }
+    VP_CHECK(found, "insert_group: no existing object is lost"); }
+  if (!g2) return;
+  hwloc_obj_t r2 = insert_group(t, g2, 0);
+#ifndef VP_CBMC
+  fprintf(stderr, "group_case g1=%#lx g2=%#lx r2=%p errno=%d\n", g1, g2, (void *) r2, errno);
+#endif
+  int is_new1 = gpop(g1) > 1 && g1 != 0x27;
+  int conflict = is_new1 && (g1 & g2) && (g1 & ~g2) && (g2 & ~g1);
+  if (conflict) {
+    VP_CHECK(r2 == NULL, "insert_group: a Group that intersects an existing one without inclusion conflicts with the hierarchy -> NULL");
+    gsnap_walk(t->levels[0][0], &C, 0);
+    VP_CHECK(gsnap_same(&B, &C), "insert_group: a conflicting Group leaves every observable attribute unchanged");
+    ge_conflict++;
+  } else {
+    VP_CHECK(r2 != NULL && vp_w(r2->cpuset) == g2, "insert_group: a second consistent Group is inserted or merged");
+    if (r2 && is_new1 && gpop(g2) > 1 && g2 != 0x27 && g2 != g1 && !(g2 & ~g1)) VP_CHECK(r2->type == HWLOC_OBJ_GROUP && r2->parent == r1 && t->nb_levels == 4, "insert_group: a Group inside a Group nests below it");
+    if (r2 && is_new1 && g2 == g1) VP_CHECK(r2 == r1, "insert_group: the same Group twice is merged");
+  }
+  vp_wf_check(t, 0);
+}
+VP_HARNESS(h_group_enum)
+{
+  static const unsigned long sets[12] = { 0x03, 0x06, 0x24, 0x05, 0x07, 0x26, 0x23, 0x25, 0x01, 0x27, 0x21, 0x22 };
+  unsigned a = (unsigned) vp_in_range(0, 11), b = (unsigned) vp_in_range(0, 12), ci = 0;
+  for (unsigned i = 0; i < NG1; i++) for (unsigned j = 0; j <= 12; j++) { if (j < 12 && j >= NG2) continue; if ((ci++ % NSLICE) == SLICE && a == i && b == j) group_case(sets[i], j < 12 ? sets[j] : 0); }
+  VP_WITNESS_IF(ge_runs >= 1, "a Group insertion of this slice executed");
+}
